@@ -1,7 +1,7 @@
 (* wire glue for engine 107 (row codec, property C07) *)
 (* WIRE engine=107 fn=dispatch_c07 *)
 From Coq Require Import List NArith Bool.
-From RPFT Require Import Base.Sexp Base.PyStr Base.Result Gen.Tables Cell.Cell Row.Ty Row.Layout Row.RowParse Row.RowUnparse Row.FlowRow Row.RoundTrip Row.CtxRoundTripFacts Row.FlowRowFacts.
+From RPFT Require Import Base.Sexp Base.PyStr Base.Result Gen.Tables Cell.Cell Row.Ty Row.Layout Row.RowParse Row.RowUnparse Row.FlowRow Row.RoundTrip Row.CtxRoundTripFacts Row.FlowRowFacts Row.Session Io.XlsxCell Io.SheetHeaders.
 Import ListNotations.
 Local Open Scope N_scope.
 
@@ -49,6 +49,30 @@ Definition dispatch_c07 (fn : N) (args : list sexp) : sexp :=
   | 7, [v] =>
     match dec_value 64 v with
     | Some v' => enc_bool (flow_dom v')
+    | None => s_badinput
+    end
+  (* 8: a session (family of classes, operations on their long-lived parsers): the result of every operation *)
+  | 8, [L fam; L ops] =>
+    match dec_list_aux dec_decl fam, dec_list_aux dec_op ops with
+    | Some fam', Some ops' => L (map enc_opres (run_session fam' ops'))
+    | _, _ => s_badinput
+    end
+  (* 9: names and defaults of the fields of every class of a family (derived classes resolved) *)
+  | 9, [L fam] =>
+    match dec_list_aux dec_decl fam with
+    | Some fam' => L (map enc_class_fields (classes fam'))
+    | None => s_badinput
+    end
+  (* 10: one cell text through RowDataSheet.export(xlsx) + XLSXSheetReader *)
+  | 10, [t] =>
+    match dec_str t with
+    | Some t' => enc_str (xlsx_cell_roundtrip t')
+    | None => s_badinput
+    end
+  (* 11: the columns RowDataSheet._get_headers gives a sheet whose rows write these headers (as a set) *)
+  | 11, [L rows] =>
+    match dec_list_aux dec_strs rows with
+    | Some rows' => L (map enc_str (sheet_header_set rows'))
     | None => s_badinput
     end
   | _, _ => s_badinput
